@@ -440,9 +440,20 @@ def _error_body(rc: RuleCtx, name: str, fi, loop, post, table):
     else:
         want_term = None
     list_form = False
-    if name in ("mae", "mse") and not (isinstance(out.env.get(acc), Rat) and "error" in out.env.get(acc).symbols()):
+    acc_v = out.env.get(acc)
+    acc_changes = isinstance(acc_v, Rat) and "error" in acc_v.symbols() and not acc_v.equals(sym("error"))
+    if name in ("mae", "mse") and not acc_changes:
         # the per-point terms are collected in a list and added up afterwards (same additions, same order)
         apps_ = [e for e in out.events if e.kind == "append" and e.guard.kind == "true"]
+        if not apps_ and header_bind:
+            # ... or stored at the loop position of a float array preallocated with np.zeros(len(a))
+            from ..gvn import Event as _Ev
+            for e_ in out.events:
+                if e_.kind == "store" and len(e_.args) == 2 and isinstance(e_.args[0], Rat) and e_.guard.kind == "true" and e_.target in acc_names \
+                        and any(isinstance(v_, Rat) and v_.equals(e_.args[0]) for v_ in hb.bindings.values()):
+                    apps_.append(_Ev(e_.guard, "append", e_.target, (e_.args[1],), e_.node))
+                    list_names = [e_.target]
+                    lst = e_.target
         if len(apps_) == 1 and isinstance(apps_[0].args[0], Rat) and len(list_names) == 1:
             list_form = True
             if apps_[0].args[0].equals(want_term):
